@@ -87,7 +87,7 @@ TEXT["C04"] = {
     "text": "Theorems: every output of the writer model satisfies an independent well-formedness relation of the format "
             "(magic, tiling section table with responses last, index entries delimiting exactly one response, canonical "
             "CBOR, trailing length) and the returned count equals the bytes handed over, for destinations with and without "
-            "ReaderFrom; model compared byte-for-byte (and count) with WriteTo on both kinds of destination.",
+            "ReaderFrom; model compared byte-for-byte (and count) with WriteTo on both kinds of destination. CountingWriter.ReadFrom is modelled line by line with its contract proved (read_from_fault, read_from_err_kind).",
     "note": BUNDLE_NOTE}
 TEXT["C05"] = {
     "text": "Theorems for ALL byte strings: the reader model never panics or diverges, every returned exchange is the "
